@@ -242,6 +242,7 @@ def minmax(I, a, ismin):
 
 def isinstance_(I, v, t):
     from .interp import raise_py, exc_is
+    v = I.force(v)
     if isinstance(t, Seq):
         return any(isinstance_(I, v, x) for x in t.items)
     if isinstance(t, TypeObj):
@@ -301,6 +302,7 @@ def abc_instance(I, v, name):
 
 def to_str(I, v):
     """str(v) / '{}'.format(v)"""
+    v = I.force(v)
     if isinstance(v, str):
         return v
     if isinstance(v, bool) or v is None:
@@ -404,6 +406,7 @@ int_val = z3.Function('int_val', z3.StringSort(), z3.IntSort())
 
 def call_type(I, t, args, kwargs):
     from .interp import raise_py, stamp, fceil, ffloor
+    args = [I.force(a) for a in args]
     n = t.name
     if n == 'int':
         if not args:
@@ -489,6 +492,7 @@ def call_type(I, t, args, kwargs):
         if isinstance(v, SymSeq) and not isinstance(v.n, int):
             r = stamp(SymSeq(n, v.n, v.fn, list(v.overlays)))
             r.map_of = getattr(v, 'map_of', None)
+            r.elem_token = v.elem_token
             return r
         if isinstance(v, RangeV) and not I.is_concrete_iter(v):
             r = I.range_to_symseq(v)
@@ -937,6 +941,9 @@ def make_libs(I):
 
 def deepcopy(I, v, memo):
     from .interp import stamp
+    from .values import OptVal
+    if isinstance(v, OptVal):
+        return OptVal(v.isnone, deepcopy(I, v.val, memo))
     if id(v) in memo:
         return memo[id(v)]
     if v is None or isinstance(v, (int, str, bool, SV, Inf, Closure, Builtin, ExcClass, TypeObj, NTClass)):
@@ -990,7 +997,11 @@ def shallowcopy(I, v):
     if isinstance(v, Seq):
         return stamp(Seq(v.kind, list(v.items))) if v.kind == 'list' else v
     if isinstance(v, SymSeq):
-        return stamp(SymSeq(v.kind, v.n, v.fn, list(v.overlays))) if v.kind == 'list' else v
+        if v.kind != 'list':
+            return v
+        r = stamp(SymSeq(v.kind, v.n, v.fn, list(v.overlays)))
+        r.elem_token = v.elem_token
+        return r
     if isinstance(v, PDict):
         return stamp(PDict(list(zip(v.keys, v.vals)), v.ordered))
     if isinstance(v, NDArr):
